@@ -5,6 +5,7 @@ use crate::gen;
 use crate::lax_ops::*;
 use crate::model::{canon_partition, partition_of_pairs, Lax};
 use crate::tape::Tape;
+use super::common::wf;
 use open_hypergraphs::lax::NodeId;
 
 pub static PROP: Prop = Prop {
@@ -122,7 +123,24 @@ fn check(t: &mut Tape, ctx: &mut Ctx) -> CheckResult {
     let consistent = t.chance(1, 2);
     let l = gen::lax(t, &sz, al, consistent, ctx);
     gen::classify(&l.d, ctx);
-    let mut f = to_lax(&l);
+    // half of the starting diagrams are built through the builder calls (the pairs are recorded by `unify`)
+    let via_api = t.chance(1, 2);
+    ctx.class_if(via_api, "built-through-unify");
+    let mut f = if via_api { to_lax_api(&l) } else { to_lax(&l) };
+    if via_api {
+        // whatever `unify` stores, it must generate the same identifications as the pairs it was given
+        ctx.sub("unify-records");
+        let rec = wf(ctx, "lax-wf", from_lax(&f), "diagram built through new_node / new_edge / unify")?;
+        let n = l.d.nodes.len();
+        ensure!(
+            ctx,
+            crate::model::partition_of_pairs(n, &rec.q) == crate::model::partition_of_pairs(n, &l.q) && rec.d == l.d,
+            "unify-records",
+            "after unify{:?} the diagram holds the pending pairs {:?}, which identify different nodes",
+            l.q,
+            rec.q
+        );
+    }
     let mut history = String::new();
     ctx.set_dump(format!("start: {}", l.pretty()));
     let rounds = 1 + t.choice(3);
